@@ -252,10 +252,12 @@ Lemma good_access_cleaned e os st :
 Proof.
   intros (I & E & O). unfold access_cleaned. unfold EnvInv in I. rewrite E in I. destruct I as [Iv Ic].
   destruct (cleaned st) as [c|] eqn:C; cbn [fst snd].
-  - repeat split; try assumption. unfold EnvInv. rewrite E, C. auto.
+  - split; [|split; [exact Ic | reflexivity]].
+    split; [|split; assumption]. unfold EnvInv. rewrite E, C. split; assumption.
   - assert (K := build_cleaned_ok (var_names st)).
-    repeat split; try assumption; try apply K.
-    unfold EnvInv. cbn [environ var_names cleaned]. rewrite E. auto.
+    split; [|split; [exact K | reflexivity]].
+    split; [|split; assumption]. unfold EnvInv. cbn [environ var_names cleaned]. rewrite E.
+    split; assumption.
 Qed.
 
 Lemma try_cleaned_sound e os st key :
@@ -361,48 +363,51 @@ Proof.
 Qed.
 
 Lemma map_app_nil (vs : list pstr) : map (app []) vs = vs.
-Proof. induction vs as [|v r IH]; cbn [map app]; [reflexivity | rewrite IH; reflexivity]. Qed.
+Proof. induction vs as [|v r IH]; [reflexivity|]. cbn [map]. rewrite IH. reflexivity. Qed.
 
 (* ---- one field --------------------------------------------------------------------------- *)
-Lemma adm_src_of e f cands r l :
+Lemma adm_cands e f cands r :
   lres_ok e cands r ->
-  l = match cands with [] => [ref_fallback f] | _ => map REnv cands end ->
-  adm e (src_of f r) l.
+  adm e (src_of f r) (match cands with [] => [ref_fallback f] | _ :: _ => map REnv cands end).
 Proof.
-  intros H ->. destruct r as [var v| |var]; cbn [lres_ok src_of adm] in *.
+  intros H. destruct r as [var v| |var]; cbn [lres_ok src_of adm] in *.
   - destruct H as [Hin Hg]. split; [|exact Hg].
     destruct cands as [|c cs]; [destruct Hin|]. apply in_map, Hin.
   - subst cands. unfold ref_fallback. destruct (f_default f); cbn [adm In]; auto.
   - destruct H.
 Qed.
 
+Lemma adm_first e f names r :
+  lres_ok e (match first_present e names with Some x => [x] | None => [] end) r ->
+  adm e (src_of f r) (match first_present e names with Some n => [REnv n] | None => [ref_fallback f] end).
+Proof.
+  intros H. apply (adm_cands e f) in H. destruct (first_present e names); exact H.
+Qed.
+
 Lemma field_lookup_sound e os st p prefix f :
   Good e os st ->
   Good e os (fst (field_lookup st p prefix f)) /\
   (safe_field prefix f = true ->
-   mem_str (f_name f) [] = false ->
    adm e (src_of f (snd (field_lookup st p prefix f))) (ref_field e p prefix [] f)).
 Proof.
   intros G. unfold field_lookup, ref_field, explicit_names, safe_field. cbn [mem_str].
+  assert (Hg : Good e os (fst (get_env p st (prefix ++ f_name f))) /\
+               (adm e (src_of f (snd (get_env p st (prefix ++ f_name f))))
+                  (match ref_candidates e p (prefix ++ f_name f) with
+                   | [] => [ref_fallback f] | l => map REnv l end))).
+  { destruct (get_env_sound p e os st (prefix ++ f_name f) G) as [G' L]. split; [exact G'|].
+    apply (adm_cands e f) in L. destruct (ref_candidates e p (prefix ++ f_name f)); exact L. }
   destruct (f_explicit f) as [|v|vs].
-  - destruct (get_env_sound p e os st (prefix ++ f_name f) G) as [G' L]. split; [exact G'|].
-    intros _ _. eapply adm_src_of; [exact L|].
-    destruct (ref_candidates e p (prefix ++ f_name f)); reflexivity.
+  - destruct Hg as [G' A]. split; [exact G' | intros _; exact A].
   - destruct (is_nil v) eqn:N.
-    + destruct (get_env_sound p e os st (prefix ++ f_name f) G) as [G' L]. split; [exact G'|].
-      intros _ _. eapply adm_src_of; [exact L|].
-      destruct (ref_candidates e p (prefix ++ f_name f)); reflexivity.
-    + cbn [fst snd map]. split; [exact G|]. intros _ _.
-      eapply adm_src_of; [apply lookup_exact_str_sound, G|].
-      destruct (first_present e [prefix ++ v]); reflexivity.
+    + destruct Hg as [G' A]. split; [exact G' | intros _; exact A].
+    + cbn [fst snd map]. split; [exact G|]. intros _.
+      apply adm_first, (lookup_exact_str_sound e os st _ G).
   - destruct (is_nil vs) eqn:N.
-    + destruct (get_env_sound p e os st (prefix ++ f_name f) G) as [G' L]. split; [exact G'|].
-      intros _ _. eapply adm_src_of; [exact L|].
-      destruct (ref_candidates e p (prefix ++ f_name f)); reflexivity.
+    + destruct Hg as [G' A]. split; [exact G' | intros _; exact A].
     + destruct (is_nil prefix) eqn:NP; cbn [fst snd]; (split; [exact G|]).
-      * intros _ _. destruct prefix; [|discriminate]. rewrite map_app_nil.
-        eapply adm_src_of; [apply lookup_exact_seq_sound, G|].
-        destruct (first_present e vs); reflexivity.
+      * intros _. destruct prefix; [|discriminate]. rewrite map_app_nil.
+        apply adm_first, (lookup_exact_seq_sound e os st _ G).
       * destruct vs; [discriminate|]. cbn [negb andb]. discriminate.
 Qed.
 
@@ -419,7 +424,7 @@ Proof.
   - split; [exact G|]. intros _. unfold ref_field. rewrite M. cbn [adm In]. auto.
   - destruct (field_lookup_sound e os st p prefix f G) as [G' A].
     destruct (field_lookup st p prefix f) as [st' r]. cbn [fst snd] in *.
-    split; [exact G'|]. intros Sf. specialize (A Sf eq_refl).
+    split; [exact G'|]. intros Sf. specialize (A Sf).
     unfold ref_field in *. rewrite M. cbn [mem_str] in A. exact A.
 Qed.
 
@@ -451,10 +456,10 @@ Qed.
 Lemma adm_single e s x : adm e s [x] -> s = src_of_rsrc e x.
 Proof.
   destruct s as [|var v| | |]; cbn [adm In]; intros H.
-  - destruct H as [<-|[]]. reflexivity.
-  - destruct H as [[<-|[]] G]. cbn [src_of_rsrc]. rewrite G. reflexivity.
-  - destruct H as [<-|[]]. reflexivity.
-  - destruct H as [<-|[]]. reflexivity.
+  - destruct H as [->|[]]. reflexivity.
+  - destruct H as [[->|[]] G]. cbn [src_of_rsrc]. rewrite G. reflexivity.
+  - destruct H as [->|[]]. reflexivity.
+  - destruct H as [->|[]]. reflexivity.
   - destruct H.
 Qed.
 
@@ -511,9 +516,9 @@ Proof.
   induction fs as [|f r IH]; intros ss H; cbn [map] in H; inversion H as [|s y ss' l' H1 H2]; subst.
   - reflexivity.
   - cbn [missing_names filter]. pose proof (adm_missing_iff _ _ _ _ _ _ H1) as M.
-    destruct (ref_is_missing e p prefix kw f).
+    destruct (ref_is_missing e p prefix kw f) eqn:R.
     + rewrite (proj2 M eq_refl). cbn [map]. f_equal. apply IH, H2.
-    + destruct s; try (apply IH, H2). destruct (proj1 M eq_refl).
+    + destruct s; try (apply IH, H2). pose proof (proj1 M eq_refl). discriminate.
 Qed.
 
 Lemma adm_no_crash e ss rs : Forall2 (adm e) ss rs -> existsb is_crash ss = false.
@@ -635,8 +640,7 @@ Lemma run_os h : forall st, os_env (run st h) = user_edits (os_env st) h.
 Proof.
   unfold run. induction h as [|o r IH]; intros st; cbn [fold_left user_edits]; [reflexivity|].
   rewrite IH. destruct o as [k v|k|c a|]; try reflexivity.
-  - rewrite (library_op_os st (OpInst c a) eq_refl). reflexivity.
-  - rewrite (library_op_os st OpReloadEnv eq_refl). reflexivity.
+  rewrite (library_op_os st (OpInst c a) eq_refl). reflexivity.
 Qed.
 
 Lemma run_inv h : forall st, EnvInv st -> EnvInv (run st h).
@@ -708,4 +712,128 @@ Proof.
   unfold overlay, ref_env_value. rewrite !get_env_update.
   rewrite !get_rev_nodup by apply nodup_merge_files.
   rewrite !get_merge_files. reflexivity.
+Qed.
+
+(* ---- where the specification is deterministic ------------------------------------------------------------ *)
+Definition clean_inj_on (l : list pstr) : Prop :=
+  NoDup l /\ forall a b, In a l -> In b l -> clean a = clean b -> a = b.
+
+Lemma filter_le1 {A} (f : A -> bool) l :
+  NoDup l -> (forall a b, In a l -> In b l -> f a = true -> f b = true -> a = b) ->
+  (List.length (filter f l) <= 1)%nat.
+Proof.
+  induction l as [|x r IH]; intros N H; cbn [filter List.length]; [lia|].
+  inversion N as [|? ? Hx Nr]; subst.
+  destruct (f x) eqn:Fx.
+  - rewrite (filter_nil f r); [cbn; lia|].
+    intros y Hy. destruct (f y) eqn:Fy; [|reflexivity].
+    exfalso. apply Hx. rewrite (H x y); auto using in_eq, in_cons.
+  - apply IH; [exact Nr|]. intros a b Ha Hb. apply H; auto using in_cons.
+Qed.
+
+Lemma candidates_le1 e p key : clean_inj_on (dom e) -> (List.length (ref_candidates e p key) <= 1)%nat.
+Proof.
+  intros [N Inj]. unfold ref_candidates.
+  destruct (first_present e (ref_exact_names p key)); [cbn; lia|].
+  apply filter_le1; [exact N|]. intros a b Ha Hb Fa Fb. apply Inj; try assumption.
+  unfold same_cleaned in *. apply pstr_eqb_eq in Fa, Fb. congruence.
+Qed.
+
+Lemma deterministic_of_inj e p prefix kw fs :
+  clean_inj_on (dom e) -> deterministic e p prefix kw fs = true.
+Proof.
+  intros Inj. unfold deterministic. apply forallb_forall. intros f _. unfold ref_field.
+  destruct (mem_str (f_name f) kw); [reflexivity|].
+  destruct (explicit_names f).
+  - destruct (first_present e (map (app prefix) l)); reflexivity.
+  - pose proof (candidates_le1 e p (prefix ++ f_name f) Inj) as L.
+    destruct (ref_candidates e p (prefix ++ f_name f)) as [|c [|d r]]; try reflexivity.
+    cbn [List.length] in L. lia.
+Qed.
+
+(* ---- statements used by props/C18.v ------------------------------------------------------------------------ *)
+Lemma pure_refinement st e p prefix kw fs :
+  EnvInv st -> environ st = Some e -> forallb (safe_field prefix) fs = true ->
+  Forall2 (adm e) (snd (resolve_fields st p prefix kw fs)) (map (ref_field e p prefix kw) fs) /\
+  (deterministic e p prefix kw fs = true ->
+   snd (resolve_fields st p prefix kw fs) = ref_resolve e p prefix kw fs) /\
+  EnvInv (fst (resolve_fields st p prefix kw fs)) /\
+  environ (fst (resolve_fields st p prefix kw fs)) = Some e.
+Proof.
+  intros I E Sf.
+  destruct (resolve_fields_sound e (os_env st) p prefix kw fs st (conj I (conj E eq_refl))) as [(I' & E' & _) F].
+  apply rf_ok_safe in F; [|exact Sf].
+  split; [exact F|]. split; [|split; assumption].
+  intros D. apply adm_deterministic; assumption.
+Qed.
+
+Lemma invariant_all :
+  (forall os, EnvInv (init_state os)) /\
+  (forall st o, EnvInv st -> EnvInv (fst (step st o))) /\
+  (forall os h, EnvInv (run (init_state os) h)).
+Proof.
+  split; [exact inv_init|]. split; [exact step_inv|].
+  intros os h. apply run_inv, inv_init.
+Qed.
+
+Lemma reload_any_history os0 h c a :
+  a_reload a = true -> safe_cls c a = true ->
+  let st := run (init_state os0) h in
+  let e := overlay (user_edits os0 h) (eff_secrets c a) (eff_dotenv c a) in
+  adm_outcome e c a (snd (instantiate st c a)) /\
+  (deterministic e (c_prio c) (eff_prefix c a) (a_kwargs a) (c_fields c) = true ->
+   snd (instantiate st c a) =
+     outcome_of (c_fields c) (ref_resolve e (c_prio c) (eff_prefix c a) (a_kwargs a) (c_fields c))) /\
+  os_env (fst (instantiate st c a)) = user_edits os0 h.
+Proof.
+  intros R Sf st e.
+  assert (I : EnvInv st) by (apply run_inv, inv_init).
+  destruct (instantiate_sound st c a I) as (e' & (_ & _ & O) & Ov & _ & K).
+  specialize (Ov R). specialize (K Sf).
+  assert (Eo : os_env st = user_edits os0 h) by (unfold st; rewrite run_os; reflexivity).
+  rewrite Eo in Ov. subst e'. destruct K as (K1 & K2 & _). split; [exact K1|]. split; [exact K2|].
+  rewrite O. exact Eo.
+Qed.
+
+Lemma missing_all os0 h c a :
+  a_reload a = true -> safe_cls c a = true ->
+  let st := run (init_state os0) h in
+  let e := overlay (user_edits os0 h) (eff_secrets c a) (eff_dotenv c a) in
+  let m := ref_missing e (c_prio c) (eff_prefix c a) (a_kwargs a) (c_fields c) in
+  (forall l, snd (instantiate st c a) = OMissing l -> l = m) /\
+  (m <> [] -> snd (instantiate st c a) = OMissing m).
+Proof.
+  intros R Sf st e m.
+  assert (I : EnvInv st) by (apply run_inv, inv_init).
+  destruct (instantiate_sound st c a I) as (e' & _ & Ov & _ & K).
+  specialize (Ov R). specialize (K Sf).
+  assert (Eo : os_env st = user_edits os0 h) by (unfold st; rewrite run_os; reflexivity).
+  rewrite Eo in Ov. subst e'. destruct K as (_ & _ & K3 & K4). split; assumption.
+Qed.
+
+Lemma environ_untouched :
+  (forall st o, is_library_op o = true -> os_env (fst (step st o)) = os_env st) /\
+  (forall st h, os_env (run st h) = user_edits (os_env st) h).
+Proof. split; [exact library_op_os | intros st h; apply run_os]. Qed.
+
+(* F22: prefix + tuple of candidate names - the model (like the code) looks up prefix ++ repr(tuple) *)
+Definition f22_os : env := [(S "P_A", S "1")].
+Definition f22_cls : cls :=
+  mkCls [mkField (S "x") (ExTuple [S "Q"; S "A"]) true] PScreaming (S "P_") [] [].
+Definition f22_args : args := mkArgs [] true EFDefault None None.
+
+Lemma refuted_prefix_tuple :
+  a_reload f22_args = true /\ safe_cls f22_cls f22_args = false /\
+  snd (instantiate (init_state f22_os) f22_cls f22_args) = OInstance [SDefault] /\
+  ref_resolve (overlay f22_os [] []) PScreaming (S "P_") [] (c_fields f22_cls) = [SEnv (S "P_A") (S "1")] /\
+  ~ adm_outcome (overlay f22_os (eff_secrets f22_cls f22_args) (eff_dotenv f22_cls f22_args))
+      f22_cls f22_args (snd (instantiate (init_state f22_os) f22_cls f22_args)).
+Proof.
+  split; [reflexivity|]. split; [reflexivity|]. split; [vm_compute; reflexivity|].
+  split; [vm_compute; reflexivity|].
+  intros (ss & F & E & _).
+  cbn [c_fields f22_cls map] in F.
+  inversion F as [|s y ss' l' H1 H2]; subst. inversion H2; subst. clear F H2.
+  destruct s; vm_compute in E; try discriminate E.
+  vm_compute in H1. destruct H1 as [H|[]]. discriminate H.
 Qed.
